@@ -145,6 +145,17 @@ func show(v interface{}) string {
 		return "string:" + x
 	case bool:
 		return "bool:" + b2s(x)
+	case []interface{}:
+		out := "list["
+		for i, e := range x {
+			if i > 0 {
+				out += " "
+			}
+			out += show(e)
+		}
+		return out + "]"
+	case []int:
+		return "ints:" + itoa(len(x))
 	}
 	return "other"
 }
@@ -298,7 +309,21 @@ func Variadic() {
 	ctx.Set("s", s)
 	ctx.Set("t", t)
 	var in, wantLog, wantOut string
-	switch vrt.Choice(12) {
+	ctx.Set("lst", []interface{}{a, s})
+	ctx.Set("ns", []int{a, b})
+	switch vrt.Choice(18) {
+	case 12: // a lone slice in the variadic position is ONE argument, not the argument list
+		in, wantLog, wantOut = "fiv([a, s, true])", "fiv(list[int:"+itoa(a)+" string:"+s+" bool:true])", "riv"
+	case 13:
+		in, wantLog, wantOut = "fiv([])", "fiv(list[])", "riv"
+	case 14:
+		in, wantLog, wantOut = "fiv(lst)", "fiv(list[int:"+itoa(a)+" string:"+s+"])", "riv"
+	case 15:
+		in, wantLog, wantOut = "fiv(ns)", "fiv(ints:2)", "riv"
+	case 16:
+		in, wantLog, wantOut = "fiv(lst, lst)", "fiv(list[int:"+itoa(a)+" string:"+s+"],list[int:"+itoa(a)+" string:"+s+"])", "riv"
+	case 17:
+		in, wantLog, wantOut = "fiv([a])", "fiv(list[int:"+itoa(a)+"])", "riv"
 	case 0:
 		in, wantLog, wantOut = "fv()", "fv()", "rv"
 	case 1:
